@@ -176,6 +176,44 @@ theorem scope_bounds {z : Zone} {q : List Bytes} {c : Client} {family src qs add
         · intro h1; rw [if_pos h1]; omega
         · intro h1; rw [if_neg h1]; exact this
 
+/-- the scope never exceeds the source prefix length the client sent when a declared subnet wins
+(RFC 7871 §7.2.1 allows a longer scope, the implementation never produces one from a declared
+subnet): the answer is never declared valid for a narrower network than was looked up.  For an
+IPv4 client subnet the winner is on the 128-bit scale with `96 ≤ ones`, hence `ones - 96 ≤ src`. -/
+theorem scope_le_source {z : Zone} {q : List Bytes} {c : Client} {family src qs addr : Nat}
+    {m : Bytes} {s : SubnetDecl}
+    (he : c.ecs = some (family, src, qs, addr)) (hm : mapFor z.maps true q = some m)
+    (hl : lpm z.subnets m (family = 1) addr (if family = 1 then src + 96 else src) = some s)
+    (h0 : s.loc ≠ [0, 0]) :
+    ∃ sc, (locate z q c).scope = some sc ∧ sc ≤ src := by
+  obtain ⟨_, h2, _, _, _, _, hle, _⟩ := scope_winner he hm hl h0
+  refine ⟨_, h2, ?_⟩
+  by_cases h1 : family = 1
+  · rw [if_pos h1] at hle ⊢; omega
+  · rw [if_neg h1] at hle ⊢; exact hle
+
+/-- the scope is a function of the query name, the client-subnet option and the declared data:
+the resolver's own address never influences it -/
+theorem scope_independent_of_resolver (z : Zone) (q : List Bytes) (c : Client) (r : Nat) :
+    (locate z q { c with resolver := r }).scope = (locate z q c).scope := by
+  rw [locate_eq, locate_eq]
+  cases he : c.ecs with
+  | none => rfl
+  | some e =>
+    obtain ⟨family, src, qs, addr⟩ := e
+    simp only
+    cases hm : mapFor z.maps true q with
+    | none => rfl
+    | some m =>
+      simp only
+      cases hl : lpm z.subnets m (family = 1) addr (if family = 1 then src + 96 else src) with
+      | none => rfl
+      | some s =>
+        simp only
+        by_cases h0 : s.loc = [0, 0]
+        · rw [if_pos h0, if_pos h0]
+        · rw [if_neg h0, if_neg h0]
+
 /-! non-vacuity: name `a` has client-subnet map `[0,1]` and resolver map `[0,2]`; subnets
 10.0.0.0/8 → `[1,1]`, 11.0.0.0/8 → untagged, 2001:db8::/32 → `[3,3]` (map `[0,1]`) and
 0.0.0.0/0 → `[2,2]` (map `[0,2]`) -/
